@@ -142,6 +142,9 @@ func (f Folder) In(e Expr, exprs []Expr) Expr {
 
 func (f Folder) foldIn(in *In) Expr {
 	if len(in.Exprs) == 0 {
+		if !discardable([]Expr{in.E}) {
+			return in // codegen evaluates E for its side effects
+		}
 		return f.constant(False)
 	}
 	if exprs := set.Unique(in.Exprs); !slc.Same(exprs, in.Exprs) {
